@@ -141,6 +141,11 @@ func c16LocalB() interface{} {
 
 type C16Map map[string]int
 
+// a NAMED map type whose underlying type is map[string]interface{}
+type C16Vars map[string]interface{}
+
+func (C16Vars) VarsM() int { return 9 }
+
 func (C16Map) MapM() int { return 6 }
 
 type C16Wrap struct { // nested members of every catalogue type, by value and by pointer
@@ -174,6 +179,7 @@ func c16Catalogue() map[string]interface{} {
 		"MethodOverField": C16MethodOverField{C16RateIn: C16RateIn{Rate: 1}}, "*MethodOverField": &C16MethodOverField{},
 		"MethodOverAmbig": C16MethodOverAmbig{}, "MapClash": C16MapClash{"Rate": 5, "x": 1},
 		"LocalA": c16LocalA(), "LocalB": c16LocalB(), "LocalA-again": c16LocalA(),
+		"Vars": C16Vars{"A": 1, "count": 2, "fn": func() int { return 1 }, "Nested": wrap.SA, "nilv": nil},
 	}
 }
 
